@@ -41,6 +41,7 @@ import DPL.Proofs.ContinuousGaussTail
 import DPL.Proofs.ContinuousGaussErfc
 import DPL.Proofs.ContinuousGaussDP
 import DPL.Proofs.ContinuousGaussBW
+import DPL.Proofs.KernelsFolded
 
 namespace DPL.C02
 open DPL DPL.Cont MeasureTheory ProbabilityTheory
@@ -550,5 +551,39 @@ theorem discrete_gauss_private_side (eps delta : ℝ) (sens : ℕ) (half rtol at
             ⟨t0, t1, Or.inr (not_lt.mp hprod)⟩
           have hfin := dgBisect_inv _ rtol atol fuel b rb nb hinv hbis
           exact dgPick_nonpos _ rb hfin
+
+end DPL.C02
+
+/-! ## `LaplaceFolded` as a kernel of the release plans (C07 / C08 compose over `MechCall ↦ input ↦ Measure ℝ` families)
+
+`PM.foldLapKernel c a` = the law of `a + Laplace(sens/ε)` pushed through the folding map `Cont.foldMap lower upper`
+(the triangle wave that `_fold` computes, ContinuousFoldModel.lean).  Metric DP is inherited by post-processing
+(`PM.metricDP_map`), exactly as for `LaplaceTruncated` (`PM.truncLapKernel`): the plans' DP theorems hold verbatim with
+the genuine folded kernel, no stand-in needed. -/
+
+namespace DPL.C02
+open DPL DPL.PM MeasureTheory
+
+/-- post-processing of every invocation's output by a measurable map keeps a mechanism family metric-DP -/
+theorem metricDP_postprocess (P : MechCall ℝ → Prop) (M : MechCall ℝ → ℝ → Measure ℝ) (hM : MetricDP P M)
+    (g : MechCall ℝ → ℝ → ℝ) (hg : ∀ c, Measurable (g c)) : MetricDP P (fun c a => (M c a).map (g c)) :=
+  metricDP_map P M hM g hg
+
+/-- **LaplaceFolded is metric-DP**: inputs within the sensitivity ⇒ output laws within `exp(ε·|a−b|/sens)` -/
+theorem foldLapKernel_metricDP : MetricDP (fun c => 0 < c.eps ∧ 0 < c.sens) foldLapKernel :=
+  PM.foldLapKernel_metricDP
+
+/-- … it is a probability law supported in `[lower, upper]` -/
+theorem foldLapKernel_prob_support (c : MechCall ℝ) (a : ℝ) (hlu : c.lower < c.upper) :
+    IsProbabilityMeasure (foldLapKernel c a) ∧ foldLapKernel c a (Set.Icc c.lower c.upper)ᶜ = 0 :=
+  ⟨foldLapKernel_isProb c a, foldLapKernel_support c a hlu⟩
+
+/-- the family dispatching on the class name (folded / truncated / plain Laplace) is metric-DP and a probability law -/
+theorem lapFamilyKernel_metricDP : MetricDP (fun c => 0 < c.eps ∧ 0 < c.sens) lapFamilyKernel :=
+  PM.lapFamilyKernel_metricDP
+
+/-- non-vacuity: an invocation satisfying the side condition -/
+example : (fun c : MechCall ℝ => 0 < c.eps ∧ 0 < c.sens) ⟨"LaplaceFolded", 1, 0, 1, 0, 1, .osCsprng⟩ := by
+  constructor <;> norm_num
 
 end DPL.C02
